@@ -451,13 +451,21 @@ def rule_chromatwin(ctx):
     h = ctx.program.func("multipitch.compute_num_true_positives", R)
     sh = ctx.S.get(h.qual)
     me = [c for c in sh.calls() if c.callee == "util.match_events"]
-    need(len(me) == 2, R, "compute_num_true_positives: two match_events calls expected")
+    need(len(me) >= 1, R, "compute_num_true_positives: no match_events call")
+    if len(me) != 2:
+        has_mod = any(dict(c.kw).get("distance") is not None for c in me)
+        yield ob(R, h, "multipitch.compute_num_true_positives:twin", False, "chroma=True no longer selects a separate match with distance=_outer_distance_mod_n (%s): pitch classes across the octave wrap (11.9 vs 0.1) stop matching" % ("a single call, always with the modular distance" if has_mod else "a single call without the modular distance"))
+        return
     under_chroma = [c for c in me if any(cc.op == "param" and cc.a[0] == "chroma" and p for cc, p in symeval.pc_conds(c.pc))]
     other = [c for c in me if c not in under_chroma]
     good = len(under_chroma) == 1 and len(other) == 1 and list(under_chroma[0].args) == list(other[0].args)
     dist = dict(under_chroma[0].kw).get("distance") if under_chroma else None
     good = good and dist is not None and dist.op == "func" and dist.a[0] == "util._outer_distance_mod_n" and not other[0].kw
     yield ob(R, h, "multipitch.compute_num_true_positives:twin", good, "chroma=True differs from chroma=False only by distance=_outer_distance_mod_n (same frames, same window)")
+    yield from _melody_twin(ctx, R)
+
+
+def _melody_twin(ctx, R):
     # melody: raw chroma vs raw pitch
     a = ctx.S.get("melody.raw_pitch_accuracy")
     b = ctx.S.get("melody.raw_chroma_accuracy")
